@@ -251,7 +251,8 @@ Qed.
 Lemma node_row_sim phi sr sc cr cls payloads dec0 sr' sc' :
   Sim phi sr sc -> StOK fresh GP sc -> row_ok cr -> r_type (cr_row cr) = TNode cls payloads dec0 ->
   step_row nab sr (cr_row cr) = Some sr' -> cstep fresh sc cr = Ok sc' ->
-  exists phi', Sim phi' sr' sc' /\ cs_heads sc' = cs_heads sc.
+  exists phi', Sim phi' sr' sc' /\ cs_heads sc' = cs_heads sc /\ phi_le phi phi'
+               /\ nth_error phi' (length (s_nodes sr)) = Some (length (cs_nodes sc), None).
 Proof.
   intros Hsim Hst [Hedges Hrow] Ht. rewrite Ht in Hrow. destruct Hrow as (Hname & Huuid & -> & -> & Hacts).
   unfold step_row, cstep. rewrite Ht, Hname, Huuid. cbn [or_default].
@@ -328,17 +329,17 @@ Proof.
     - apply (GS_row phi2 (cs_nodes sc2) k (kind_cls kind) (j, None) (rowtype_of kind) nd2); [exact Hk2|exact Hj2|eapply class_ok_same; eauto].
     - intros x [<-|[]]. apply (gframe_grow _ _ k Hf2); [cbn; rewrite app_length; cbn; unfold k; lia|exact Hknew]. }
   split; [destruct G as [G1 G2 G3 G4 G5 G6 G7 G8]; constructor; assumption|].
-  cbn. rewrite (ext_heads _ _ He2). reflexivity.
+  split; [cbn; rewrite (ext_heads _ _ He2); reflexivity|]. split; [eapply phi_le_trans; [apply phi_le_app|exact Hle2]|exact Hk2].
 Qed.
 
 (* hard_exit / loose_exit rows *)
 Lemma exit_rows_sim phi sr sc es tgt dd sr' sc' :
   Sim phi sr sc -> StOK fresh GP sc -> Forall edge_ok es -> dest_sim phi (cuu sc) tgt dd ->
   fold_edges nab sr es (fun _ => tgt) = Some sr' -> foldM (fun s' e => cadd_row_edge fresh s' e dd) es sc = Ok sc' ->
-  exists phi', Sim phi' sr' sc' /\ cs_heads sc' = cs_heads sc.
+  exists phi', Sim phi' sr' sc' /\ cs_heads sc' = cs_heads sc /\ phi_le phi phi'.
 Proof.
-  intros Hsim Hst Hes Hd H1 H2. destruct (fold_edges_sim es phi sr sc tgt dd sr' sc' Hsim Hst Hes Hd H1 H2) as (phi' & H & _ & _ & He & _).
-  exists phi'. split; [exact H|apply (ext_heads _ _ He)].
+  intros Hsim Hst Hes Hd H1 H2. destruct (fold_edges_sim es phi sr sc tgt dd sr' sc' Hsim Hst Hes Hd H1 H2) as (phi' & H & Hle & _ & He & _).
+  exists phi'. split; [exact H|]. split; [apply (ext_heads _ _ He)|exact Hle].
 Qed.
 
 (* go_to rows *)
@@ -358,10 +359,10 @@ Lemma goto_sim (l : list (redge * str)) : forall phi sr sc sr' sc',
                                   | Ok k => match nth_error (cs_nodes s') k with
                                             | Some nd => cadd_row_edge fresh s' (fst et) (Some (cn_uuid nd))
                                             | None => Err EInternal end end end) l sc = Ok sc' ->
-  exists phi', Sim phi' sr' sc' /\ cs_heads sc' = cs_heads sc.
+  exists phi', Sim phi' sr' sc' /\ cs_heads sc' = cs_heads sc /\ phi_le phi phi'.
 Proof.
   induction l as [|et r IH]; intros phi sr sc sr' sc' Hsim Hst Hl; cbn [fold_left foldM].
-  - intros H1 H2. injection H1 as <-. injection H2 as <-. exists phi. split; [exact Hsim|reflexivity].
+  - intros H1 H2. injection H1 as <-. injection H2 as <-. exists phi. split; [exact Hsim|]. split; [reflexivity|apply phi_le_refl].
   - inversion Hl as [|? ? He Hr]; subst. rewrite (sim_rowmap _ _ _ Hsim).
     destruct (alookup (cs_rowmap sc) (snd et)) as [g|].
     2:{ intros H. exfalso. clear - H. induction r as [|a r IHr]; cbn in H; [discriminate|auto]. }
@@ -377,9 +378,9 @@ Proof.
     intros H1 H2.
     assert (Hd : dest_sim phi (cuu sc) (DNode k) (Some (cn_uuid nd))).
     { cbn. split; [eapply uuid_not_sentinel; eauto|]. exists c. split; [exact Hc|]. rewrite Ec. unfold cuu. rewrite nth_error_map, En. reflexivity. }
-    destruct (add_row_edge_sim phi sr sc (fst et) (DNode k) (Some (cn_uuid nd)) s1 c1 Hsim Hst He Hd A1 A2) as (phi1 & S1 & _ & T1 & X1 & _).
-    destruct (IH phi1 s1 c1 sr' sc' S1 T1 Hr H1 H2) as (phi2 & S2 & E2'). exists phi2. split; [exact S2|].
-    rewrite E2'. apply (ext_heads _ _ X1).
+    destruct (add_row_edge_sim phi sr sc (fst et) (DNode k) (Some (cn_uuid nd)) s1 c1 Hsim Hst He Hd A1 A2) as (phi1 & S1 & L1 & T1 & X1 & _).
+    destruct (IH phi1 s1 c1 sr' sc' S1 T1 Hr H1 H2) as (phi2 & S2 & E2' & L2). exists phi2. split; [exact S2|].
+    split; [rewrite E2'; apply (ext_heads _ _ X1)|eapply phi_le_trans; eauto].
 Qed.
 
 (* the parents of a no_op / of a block head *)
